@@ -1,5 +1,6 @@
 /- driver protocol for Model/Topology.lean (C04) -/
 import MdVerif.Model.Topology
+import MdVerif.Model.TopoIdx
 namespace MdVerif.Driver.TopoP
 open MdVerif.Topo
 
@@ -51,7 +52,44 @@ def showTop (t : Topology) : String :=
   (if t.chains.isEmpty then "-" else "/".intercalate (t.chains.map showChain)) ++ " " ++
   (if t.bonds.isEmpty then "-" else ",".intercalate (t.bonds.map showBond))
 
+/- indexed topologies:  chainIds ","-separated ("-" none; "=" empty list);  residues ";"-separated name~resSeq~seg~chain;
+   atoms ","-separated name^elem^serial^res (index order);  bonds as above -/
+def parseIAtom (s : String) : Option IAtom :=
+  match s.splitOn "^" with
+  | [n, e, sr, r] => do let r ← r.toNat?; pure ⟨n, e, if sr == "-" then none else sr.toInt?, r⟩
+  | _ => none
+
+def parseIRes (s : String) : Option IRes :=
+  match s.splitOn "~" with
+  | [n, rs, seg, c] => do let rs ← rs.toInt?; let c ← c.toNat?; pure ⟨n, rs, undash seg, c⟩
+  | _ => none
+
+def parseITop (cs rs as bs : String) : Option ITop := do
+  let cids := if cs == "=" then [] else (cs.splitOn ",").map optStr
+  let res ← (if rs == "=" then some [] else (rs.splitOn ";").mapM parseIRes)
+  let atoms ← (if as == "=" then some [] else (as.splitOn ",").mapM parseIAtom)
+  let bonds ← (if bs == "-" then some [] else (bs.splitOn ",").mapM parseBond)
+  pure ⟨cids, res, atoms, bonds⟩
+
+def showITop (t : ITop) : String :=
+  (if t.chainIds.isEmpty then "=" else ",".intercalate (t.chainIds.map (fun c => match c with | none => "-" | some v => v))) ++ " " ++
+  (if t.residues.isEmpty then "=" else ";".intercalate (t.residues.map (fun r => s!"{r.name}~{r.resSeq}~{dash r.segId}~{r.chain}"))) ++ " " ++
+  (if t.atoms.isEmpty then "=" else ",".intercalate (t.atoms.map (fun a => s!"{a.name}^{a.elem}^{match a.serial with | none => "-" | some v => toString v}^{a.res}"))) ++ " " ++
+  (if t.bonds.isEmpty then "-" else ",".intercalate (t.bonds.map showBond))
+
 def handleTopo : List String → String
+  | ["itopsubset", cs, rs, as, bs, mask] =>
+    match parseITop cs rs as bs with
+    | some t => let m := mask.toList.map (· == '1'); showITop (isubset t (fun i => m.getD i false))
+    | none => "bad-op"
+  | ["itopjoin", cs, rs, as, bs, cs2, rs2, as2, bs2, k] =>
+    match parseITop cs rs as bs, parseITop cs2 rs2 as2 bs2 with
+    | some a, some b => showITop (ijoin a b (k == "1"))
+    | _, _ => "bad-op"
+  | ["itopnested", cs, bs] =>
+    match parseTop cs bs with
+    | some t => showITop (ofNested t)
+    | none => "bad-op"
   | ["topsubset", cs, bs, mask] =>
     match parseTop cs bs with
     | some t => let m := mask.toList.map (· == '1'); showTop (subset t (fun i => m.getD i false))
